@@ -187,7 +187,32 @@ impl Scenario for FaultScen {
         p.stream = st;
         p.note.push_str(&format!("; cuts: {}", mode));
         let _ = tier;
-        if rng.chance(3, 4) {
+        if rng.chance(1, 10) {
+            // interrupt storms: an interrupt before every refill of a stretched document
+            // read in tiny pieces, or one very long run of interrupts at one call
+            let mut o = TreeOpts::plain();
+            o.max_toks = 8;
+            let mut t = gen_tree(rng, &o);
+            let note = stretch_tokens(rng, &mut t, false);
+            p.doc = concat(&t);
+            p.toks = t;
+            p.note = format!("tree; stretched: {}; interrupt storm", note);
+            let (mut st, _) = gen_stream(rng, &p.doc, true);
+            let k = *rng.pick(&[1usize, 1, 2, 3, 7]);
+            st.cuts = (1..p.doc.len()).filter(|i| i % k == 0).map(|i| i as u32).collect();
+            st.faults.retain(|f| matches!(f.fault, Fault::Pending { .. }));
+            let calls = (p.doc.len() / k + 16) as u32;
+            if rng.bool() {
+                for c in 0..calls.min(6000) {
+                    st.faults.push(FaultAt { call: c, fault: Fault::Eintr(1) });
+                }
+            } else {
+                st.faults.push(FaultAt { call: rng.below(calls as usize) as u32, fault: Fault::Eintr(*rng.pick(&[65u8, 70, 130, 255])) });
+            }
+            st.faults.sort_by_key(|f| f.call);
+            respect_sniff(&p.doc, &mut st);
+            p.stream = st;
+        } else if rng.chance(3, 4) {
             p.enumerate = true;
         } else {
             // random multi-fault pattern
